@@ -114,6 +114,11 @@ func (w *World) rulesAutomaton(p *Pkg, m *parseModel, add func(ok bool, rule, in
 		ast.Inspect(e, func(n ast.Node) bool {
 			if id, ok := n.(*ast.Ident); ok {
 				if v, ok := info.Uses[id].(*types.Var); ok && v.Parent() != p.P.Types.Scope() && !v.IsField() && !cand[v] {
+					// the element's abbreviation may steer the cursor (it is what the order
+					// table is compared with): each step is evaluated per abbreviation
+					if types.Object(v) == m.abvObj {
+						return true
+					}
 					bad = true
 				}
 			}
